@@ -5,6 +5,10 @@ package keystore
 // Contracts for the keystores (property C20). Comment-only.
 
 /*@
+immutable "github.com/libp2p/go-libp2p-kad-dht/provider/keystore.ErrClosed"
+immutable "github.com/libp2p/go-libp2p-kad-dht/provider/keystore.activeNamespaceKey"
+immutable "github.com/libp2p/go-libp2p-kad-dht/provider/keystore.sizeKey"
+
 func (s *keystore) put(ctx context.Context, keys []mh.Multihash) ([]mh.Multihash, error)
   props C20
   ghostvar $has bool = true
@@ -76,4 +80,19 @@ func refreshSize(ctx context.Context, d ds.Datastore) (size int, err error)
   modifies nothing
   ensures size >= 0
   loop 0 invariant size >= 0
+
+# ---- reset protocol ordering (worker goroutine) ------------------------------
+# O2: the namespace marker is written only after the alternate datastore was
+#     synced successfully (nothing is written to it afterwards on this path);
+# O3: the in-memory swap (after which teardown destroys the old namespace)
+#     happens only if the marker naming the new namespace was written.
+func (s *ResettableKeystore) handleResetOp(op resetOp)
+  props C20
+  ghostvar $altSynced bool = false
+  ghostvar $marker bool = false
+  modifies *
+  ghost at call(Sync)#0: $altSynced = ($ret0 == nil)
+  ghost at before call(Put): assert($altSynced); assert($arg1 == activeNamespaceKey && len($arg2) == 1 && $arg2[0] == 1 - s.activeNamespace)
+  ghost at call(Put): $marker = ($ret0 == nil)
+  ghost at assign(s.ds): assert($marker)
 @*/
